@@ -9,6 +9,7 @@ CHUNK = 50
 RULE = ("One evaluation = one seeded history on a generated workflow (1-8 targets; container shapes str/list/nested/dict/dict-with-empty-group; path spellings plain, ./x, zz/../x, absolute; spec hashing on in half of the runs) against a simulated Slurm/SGE/LSF: initial per-file presence and ages (ties by construction on a coarse timestamp grid of 1/1024..2 s), gwf run (also with the k-th submission rejected) / gwf touch / job start / finish (clock-skewed nodes) / source modification / output deletion / single-file touch / spec edit, files dated 1970-01-01 (mtime 0), tuple and dict-view containers, interleaved with `gwf status`. Oracle at every status: for each target whose latest job is finished-ok or unknown and whose dependencies are complete, reported status == (M_stale ? shouldrun : completed) with M_stale the statement written out over the set of declared paths and the oracle's own hash records. Non-trivial = at least one file-based decision was checked; distinct = different event-log digest. Sampling, not the bounded-exhaustive enumeration the property text mentions.")
 PROFILE = dict(
     nontrivial_probes=['file_based_decisions'],
+    sizes=[1, 2, 3, 3, 4, 4, 5, 6, 8, 20],
     backends=["slurm", "slurm", "sge", "lsf", "local"],
     granularities=[1.0 / 1024, 1.0 / 16, 1.0, 1.0, 2.0],
     weights=dict(status=5, run=1.5, start=2, finish=2.5, purge=0.5, acct_flush=0.5, modify_source=1.5, delete_output=1,
